@@ -582,7 +582,8 @@ def setPaLevel (power : Arg) (lna : Option Bool := none) : DrvM Unit := do
   let (lnaBit, p) : Bool × Option Int := match power, lna with
     | .i v, some l => (l, some v)     -- tuple form `(v, l)`
     | .i v, none => (true, some v)
-    | .b v, _ => (true, some (b2n v)) -- a bool is an int: True = 1 is rejected below, False = 0 dBm
+    | .b v, some l => (l, some (b2n v))  -- tuple form `(bool, l)`: `int(power[0])`
+    | .b v, none => (true, some (b2n v)) -- a bool is an int: True = 1 is rejected below, False = 0 dBm
     | _, _ => (true, none)
   match p with
   | none => raise .valueError
